@@ -240,6 +240,31 @@ pub proof fn lemma_count_two_witness(s: Seq<usize>, v: int, n: int) -> (r: (int,
     } else { lemma_count_two_witness(s, v, n - 1) }
 }
 
+/// a table is injective iff no value occurs twice (counts as computed by bincount)
+pub proof fn lemma_counts_injective(tv: Seq<usize>, counts: Seq<usize>, target: int)
+    requires counts.len() == target, forall|i: int| 0 <= i < tv.len() ==> (#[trigger] tv[i]) < target,
+        forall|v: int| 0 <= v < target ==> counts[v] == count(tv, v, tv.len() as int),
+    ensures injective(tv) <==> (forall|v: int| 0 <= v < target ==> counts[v] <= 1)
+{
+    let n = tv.len() as int;
+    if injective(tv) {
+        assert forall|v: int| 0 <= v < target implies counts[v] <= 1 by {
+            if count(tv, v, n) >= 2 {
+                let (i, j) = lemma_count_two_witness(tv, v, n);
+            }
+        }
+    }
+    if forall|v: int| 0 <= v < target ==> counts[v] <= 1 {
+        assert forall|i: int, j: int| 0 <= i < n && 0 <= j < n && i != j implies tv[i] != tv[j] by {
+            if tv[i] == tv[j] {
+                assert(tv[i] < target);
+                if i < j { lemma_count_two(tv, tv[i] as int, n, i, j); } else { lemma_count_two(tv, tv[i] as int, n, j, i); }
+                assert(counts[tv[i] as int] == count(tv, tv[i] as int, n));
+            }
+        }
+    }
+}
+
 // ---------------------------------------------------------------------------------------------
 // coequalizers by their universal property
 // ---------------------------------------------------------------------------------------------
